@@ -69,7 +69,7 @@ func (r Int16) MAX(a, b Int16) Scalar {
 }
 /* -------------------------------------------------------------------------- */
 func (c Int16) ABS(a Int16) Scalar {
-  if c.Sign() == -1 {
+  if a.Sign() == -1 {
     c.NEG(a)
   } else {
     c.SET(a)
